@@ -22,35 +22,63 @@ def _canon(t):
     return "".join(t.split()).lower()
 
 
+_RE_LITERAL = re.compile(r"^[+-]?(\d+\.?\d*|\.\d+)([ed][+-]?\d+)?(_\w+)?$", re.I)
+
+
+def _dup_causes(case):
+    '''The actual arguments that repeat an earlier one (same data object), each
+    with the known causes that explain it; None if some repeat is unexplained
+    or the lists would still disagree without the repeats.'''
+    acts = case["actuals"]
+    causes = []
+    seen = []
+    for a in acts:
+        first = [b for b in seen if _canon(a) == _canon(b)]
+        if not first:
+            seen.append(a)
+            continue
+        b = first[0]
+        why = set()
+        if "%" in a and a.replace(" ", "") != b.replace(" ", ""):
+            why.add("case")         # spellings differ in letter case only
+        if " % " in a:
+            # fparser's spelling of a structure access kept as a CodeBlock: it
+            # comes from a user-kernel call whose first argument is a literal
+            for call in case["source_invoke"]:
+                if call[0] in gen.LFRIC_KERNELS and \
+                        _RE_LITERAL.match(call[1].replace(" ", "")) and \
+                        any(_canon(x) == _canon(a) for x in call[2:]):
+                    why.add("codeblock")
+        if not why:
+            return None
+        causes.append(why)
+    if not causes or len(seen) != len(case["dummies"]):
+        return None
+    return causes
+
+
+def _dup_match(case, clause, cause):
+    if case.get("path") != "psyir":
+        return False
+    if clause not in ("SameLength", "DataFlow"):
+        return False
+    causes = _dup_causes(case)
+    return bool(causes) and any(cause in why for why in causes)
+
+
 def m_member_case(case, clause, detail, finding):
     '''PSyIR-based algorithm layer only: the generated call passes one data
     object twice because two spellings of a structure access differ in the
     letter case of a component (or of the indexed member) - the list lengths
-    then differ or the positions behind the duplicate are shifted.'''
-    if case.get("path") != "psyir":
-        return False
-    if clause not in ("SameLength", "DataFlow", "NoActualForDummy"):
-        return False
-    acts = case["actuals"]
-    if len(acts) <= len(case["dummies"]):
-        return False
-    dup = False
-    for i, a in enumerate(acts):
-        for b in acts[:i]:
-            if _canon(a) == _canon(b):
-                # the two spellings differ by case only, in a structure access
-                if "%" not in a or a.replace(" ", "") == b.replace(" ", ""):
-                    return False
-                dup = True
-    if not dup:
-        return False
-    # without the later duplicates the lists agree in length
-    seen, uniq = set(), []
-    for a in acts:
-        if _canon(a) not in seen:
-            seen.add(_canon(a))
-            uniq.append(a)
-    return len(uniq) == len(case["dummies"])
+    then differ and the positions behind the repeat are shifted.'''
+    return _dup_match(case, clause, "case")
+
+
+def m_codeblock(case, clause, detail, finding):
+    '''LFRic PSyIR-based algorithm layer only: a structure access in a
+    user-kernel call whose first argument is a literal is kept as a CodeBlock
+    and passed again although an earlier call already passed that object.'''
+    return case.get("api") == "lfric" and _dup_match(case, clause, "codeblock")
 
 
 def m_name_prefix(case, clause, detail, finding):
@@ -83,11 +111,17 @@ def m_named_single_builtin(case, clause, detail, finding):
 
 
 MATCHERS = {"c24_psyir_member_case": m_member_case,
+            "c24_psyir_codeblock": m_codeblock,
             "c24_psyir_name_prefix": m_name_prefix,
             "c24_psyir_named_single_builtin": m_named_single_builtin}
 
 
 # ------------------------------------------------------------------ helpers
+def _procs():
+    '''core.NCPU, or fewer while developing (PV_C24_PROCS).'''
+    return int(os.environ.get("PV_C24_PROCS") or core.NCPU)
+
+
 def _cfg(name, tmp):
     '''The static configuration, or a copy with Offset (VERIF_SEED) / Stride
     (development aid PV_C24_STRIDE) substituted.'''
@@ -154,6 +188,7 @@ def _describe(shape, path, api, iidx, case):
 
 def validate(cases, cov, tmp, workers=None):
     '''cases: list of dicts with "id" -> TLC.  Returns (verdicts, diverges).'''
+    workers = workers or _procs()
     path = os.path.join(tmp, "cases-%d.json" % len(cases))
     with open(path, "w") as f:
         json.dump(cases, f, separators=(",", ":"))
@@ -176,7 +211,7 @@ def _run_shapes(out, cov, tmp, shapes, dm, stats):
     '''Generate every shape with the real generator, itemise, let TLC judge.'''
     decoded = [(gen.decode_shape(s), s["api"]) for s in shapes]
     jobs = [(d, api, dm, tmp) for d, api in decoded]
-    results = core.pool_map(gen.work, jobs, chunksize=2)
+    results = core.pool_map(gen.work, jobs, procs=_procs(), chunksize=2)
     cases = []
     meta = {}
     for (d, api), r in zip(decoded, results):
@@ -227,6 +262,54 @@ def _run_shapes(out, cov, tmp, shapes, dm, stats):
     return cases, meta
 
 
+def _run_examples(out, cov, tmp, dm, stats):
+    '''Thorough tier: the repository's own algorithm examples through every
+    algorithm-layer path; TLC judges the clauses about the two lists and the
+    routine names (kernel-argument provenance is not traced for arbitrary
+    kernels).'''
+    jobs = [(f, api, dm) for api in ("lfric", "gocean")
+            for f in gen.example_files(api)]
+    results = core.pool_map(gen.work_example, jobs, procs=_procs(), chunksize=2)
+    cases, meta = [], {}
+    for r in results:
+        stats["files"] += 1
+        for pname, val in r["paths"].items():
+            stats["generations"] += 1
+            key = f"examples-{r['api']}/{pname}"
+            if val[0] == "refused":
+                stats["refused"] += 1
+                continue
+            for iidx, (kind, c) in enumerate(val[1]):
+                stats["by_path"][key] = stats["by_path"].get(key, 0) + 1
+                if kind == "unsupported":
+                    stats["unsupported_examples"] = \
+                        stats.get("unsupported_examples", 0) + 1
+                    continue
+                cid = len(cases) + 1
+                cases.append(dict(c, id=cid))
+                meta[cid] = (r["file"], r["api"], pname, iidx)
+    if not cases:
+        raise core.MachineryError("no repository example could be itemised")
+    verdicts, diverges = validate(cases, cov, tmp)
+    cov["traces_validated_against_impl"] += len(cases)
+    cov["example_invokes"] = cov.get("example_invokes", 0) + len(cases)
+    cov["example_argument_positions"] = cov.get("example_argument_positions", 0) \
+        + sum(len(c["acts"]) for c in cases)
+    for c in cases:
+        stats["distinct"].add(core.chash([c["call"], c["acts"], c["dums"]]))
+    by_id = {c["id"]: c for c in cases}
+    for v in verdicts:
+        fname, api, pname, iidx = meta[v["id"]]
+        c = by_id[v["id"]]
+        out.violation({"api": api, "path": pname, "file": fname,
+                       "invoke": iidx, "label": "", "source_invoke": [],
+                       "call": gen.dec(c["call"]),
+                       "actuals": [gen.dec(a) for a in c["acts"]],
+                       "subs": [gen.dec(x) for x in c["subs"]],
+                       "dummies": [gen.dec(d) for d in c["dums"]],
+                       "distributed_memory": dm}, v["v"], v["w"])
+
+
 def run(tier):
     core.setup_psyclone_env()
     out = core.Outcome("C24", tier, "model_checking", matchers=MATCHERS)
@@ -239,14 +322,15 @@ def run(tier):
     quick = tier == "quick"
     tmp = core.mktemp("pv-c24-")
     try:
-        _selftest_keys(core.NCPU, quick)
+        _selftest_keys(_procs(), quick)
         cfg = "InvokeBinding_quick.cfg" if quick else "InvokeBinding_thorough.cfg"
-        shapes = _shapes(_cfg(cfg, tmp), cov, core.NCPU)
+        shapes = _shapes(_cfg(cfg, tmp), cov, _procs())
         cov["shapes_lfric"] = sum(1 for s in shapes if s["api"] == "lfric")
         cov["shapes_gocean"] = sum(1 for s in shapes if s["api"] == "gocean")
         _run_shapes(out, cov, tmp, shapes, False, stats)
         if not quick:
             _run_shapes(out, cov, tmp, shapes, True, stats)
+            _run_examples(out, cov, tmp, False, stats)
     finally:
         shutil.rmtree(tmp, ignore_errors=True)
     judged = cov["traces_validated_against_impl"]
